@@ -68,6 +68,14 @@ Theorem C08_net_drives_no_bit_twice tbl obs : net_disjoint_ok tbl obs = true ->
   forall wn, In wn obs -> ForallOrdPairs (fun a b => ivl_overlap a b = false) (reader_ivls tbl wn).
 Proof. exact (net_disjoint_ok_sound tbl obs). Qed.
 
+(* "in simulation every member of a net carries the writer's value": the net block (copy the writer's bits onto each
+   reader in turn) establishes it whenever the acceptor's shape check holds, and leaves the writer untouched *)
+Theorem C08_net_values tbl obs : net_disjoint_ok tbl obs = true ->
+  forall w net, In (w, net) obs -> const_n tbl w = false -> forall e,
+  (forall v, in_ivl v (ivl_n tbl w) = true -> run_net (ivl_n tbl w) (reader_ivls tbl (w, net)) e v = e v) /\
+  (forall r, In r (reader_ivls tbl (w, net)) -> carries (ivl_n tbl w) r (run_net (ivl_n tbl w) (reader_ivls tbl (w, net)) e)).
+Proof. exact (net_values_accepted tbl obs). Qed.
+
 (* non-vacuity: statements 0-1, 2-1, 3-4 (and a swapped, permuted copy); node 0 is bits [0,8) of root 0 and is written by
    an update block; 1 and 2 are other roots; 3 is a constant feeding 4.  The acceptors accept the right answer and
    reject a wrong net split, a wrong writer, and a second driven member. *)
@@ -87,4 +95,4 @@ Proof. vm_compute. repeat split. Qed.
 Print Assumptions C08_components_spec. Print Assumptions C08_components_class. Print Assumptions C08_components_partition.
 Print Assumptions C08_components_order_indep. Print Assumptions C08_components_same_graph. Print Assumptions C08_nets_ok_sound.
 Print Assumptions C08_drivers_function_of_set. Print Assumptions C08_drivers_order_indep. Print Assumptions C08_writer_ok_sound.
-Print Assumptions C08_no_second_driver_bit. Print Assumptions C08_net_drives_no_bit_twice.
+Print Assumptions C08_no_second_driver_bit. Print Assumptions C08_net_drives_no_bit_twice. Print Assumptions C08_net_values.
